@@ -48,6 +48,8 @@ def to_z3(v, want_real=False):
         return z3.RealVal(str(v)) if True else None
     if isinstance(v, float):
         return z3.RealVal(str(Fraction(repr(v))))
+    if isinstance(v, Opaque):       # an opaque python value is its term of the uninterpreted sort (storing it in a sequence of such values)
+        return v.term
     raise OutOfSubset("cannot convert %r to an SMT term" % (v,))
 
 
